@@ -1,3 +1,3 @@
 module verif
 
-go 1.23
+go 1.24.0
